@@ -304,6 +304,16 @@ def Wrapper.objBoundsOk (w : Wrapper) : Bool :=
 /-- the returned vector is assembled by `_project_params_up` in every wrapper of the current source … -/
 def Wrapper.resultIsUp (w : Wrapper) : Bool := match w.result with | .up _ => true | _ => false
 
+/-- a bound expression that went through `_project_params_down` (so that it lines up with the contracted start vector) -/
+def VE.isProjected : VE → Bool
+  | .down _ => true
+  | .log e => e.isProjected
+  | .exp e => e.isProjected
+  | .nanToNone e => e.isProjected
+  | .noneToInf e => e.isProjected
+  | .maxConst e _ => e.isProjected
+  | _ => false
+
 /-- the start handed to the optimiser is the contracted `p0`, in the parameterisation of the objective -/
 def Wrapper.startOk (w : Wrapper) : Bool := w.start == some (if w.objLog then .log (.down .p0) else .down .p0)
 
